@@ -4,8 +4,19 @@ package balancer
 
 // Contracts for govc (see /verif/DESIGN.md). Comment-only file: contributes no code.
 
+// every selector is built with its statistics collector (NewXSelector); the connection counting of C06/C19 goes
+// through it
+//@ type RoundRobinSelector
+//@   repinv self.statsCollector != nil
+//@ type PrioritySelector
+//@   repinv self.statsCollector != nil
+//@ type LeastConnectionsSelector
+//@   repinv self.statsCollector != nil
+
 //@ func (r *RoundRobinSelector) Select
 //@   property C03 C06
+//@   safety
+//@   requires r != nil
 //@   refines domain.EndpointSelector.Select
 //@   requires allNonNil(endpoints)
 //@   modifies r.counter
@@ -23,42 +34,56 @@ package balancer
 
 //@ func (r *RoundRobinSelector) IncrementConnections
 //@   property C06 C19
+//@   safety
+//@   requires r != nil
 //@   refines domain.EndpointSelector.IncrementConnections
 //@   modifies ghost(endpoint).gauge
 //@   ensures ghost(endpoint).gauge == old(ghost(endpoint).gauge) + 1
 
 //@ func (r *RoundRobinSelector) DecrementConnections
 //@   property C06 C19
+//@   safety
+//@   requires r != nil
 //@   refines domain.EndpointSelector.DecrementConnections
 //@   modifies ghost(endpoint).gauge
 //@   ensures ghost(endpoint).gauge == old(ghost(endpoint).gauge) - 1
 
 //@ func (p *PrioritySelector) IncrementConnections
 //@   property C06 C19
+//@   safety
+//@   requires p != nil
 //@   refines domain.EndpointSelector.IncrementConnections
 //@   modifies ghost(endpoint).gauge
 //@   ensures ghost(endpoint).gauge == old(ghost(endpoint).gauge) + 1
 
 //@ func (p *PrioritySelector) DecrementConnections
 //@   property C06 C19
+//@   safety
+//@   requires p != nil
 //@   refines domain.EndpointSelector.DecrementConnections
 //@   modifies ghost(endpoint).gauge
 //@   ensures ghost(endpoint).gauge == old(ghost(endpoint).gauge) - 1
 
 //@ func (l *LeastConnectionsSelector) IncrementConnections
 //@   property C06 C19
+//@   safety
+//@   requires l != nil
 //@   refines domain.EndpointSelector.IncrementConnections
 //@   modifies ghost(endpoint).gauge
 //@   ensures ghost(endpoint).gauge == old(ghost(endpoint).gauge) + 1
 
 //@ func (l *LeastConnectionsSelector) DecrementConnections
 //@   property C06 C19
+//@   safety
+//@   requires l != nil
 //@   refines domain.EndpointSelector.DecrementConnections
 //@   modifies ghost(endpoint).gauge
 //@   ensures ghost(endpoint).gauge == old(ghost(endpoint).gauge) - 1
 
 //@ func (l *LeastConnectionsSelector) Select
 //@   property C03 C06
+//@   safety
+//@   requires l != nil
 //@   refines domain.EndpointSelector.Select
 //@   requires allNonNil(endpoints)
 //@   loop 1 invariant len(routable) <= i$1
@@ -82,6 +107,8 @@ package balancer
 
 //@ func (p *PrioritySelector) Select
 //@   property C03 C06
+//@   safety
+//@   requires p != nil
 //@   refines domain.EndpointSelector.Select
 //@   requires allNonNil(endpoints)
 //@   loop 1 invariant len(routable) <= i$1
